@@ -30,6 +30,9 @@ CONTRACTS = {
 
 
 class Bounds:
+    lower: int = default_min_int
+    upper: int = default_max_int
+
     def __init__(self, lower, upper):
         if lower > upper:
             raise ValueError(f"upper bound must be higher than lower bound, got: ({lower}, {upper})")
@@ -50,7 +53,10 @@ class Bounds:
         return (self.lower, self.upper) == (obj.as_tuple() if issubclass(obj.__class__, Bounds) else obj)
 
 
-class variable:
+class variable(Proposition):
+    id: str
+    bounds: Bounds
+
     def __init__(self, id, bounds=None, dtype=None):
         self.id = id
         if issubclass(bounds.__class__, Bounds):
